@@ -511,6 +511,8 @@ def _term(node, as_dict=False):
         pass
     if isinstance(node, (ast.List, ast.Tuple)):
         return T("list", [_term(x) for x in node.elts])
+    if isinstance(node, ast.Dict):         # a dict holding model instances / NotPassed
+        return T("dict", kws=[(ast.literal_eval(k), _term(v)) for k, v in zip(node.keys, node.values)])
     raise ValueError("unreadable repr node " + ast.dump(node)[:80])
 
 
